@@ -292,3 +292,57 @@ def mode_str(mode_vars, m):
             return str(v[1])
         return str(v)
     return ",".join("%s=%s" % (n, sv(v)) for n, v in zip(mode_vars, m))
+
+
+def symlex(tab, entry, pieces):
+    """table-driven lexing of a symbolic string (literal pieces + opaque atoms) with the EXTRACTED transition table.
+    An atom behaves like a run of ordinary value characters (representative 'x'); returns list of (kind, pieces) or None."""
+    table = {}
+    for c in tab["cells"]:
+        if c["char"] is not None:
+            table[(c["mode"], c["char"])] = c
+    mode = tab["inits"].get(entry)
+    if mode is None:
+        return None
+    elems = []
+    for p in pieces:
+        if p[0] == "lit":
+            elems.extend(("c", ch) for ch in p[1])
+        else:
+            elems.append(("a", p))
+    out = []
+    i = 0
+    guard = 0
+    while i < len(elems):
+        guard += 1
+        if guard > 10000:
+            return None
+        e = elems[i]
+        ch = e[1] if e[0] == "c" else "x"
+        if ch not in CHARS:
+            ch = "é" if utf8len(ch) == 2 else ("€" if utf8len(ch) == 3 else "\U0001F600")
+        cell = table.get((mode, ch))
+        if cell is None or "kind" not in cell:
+            return None
+        k = cell.get("k") or ("?",)
+        text = [e]
+        i += 1
+        if k[0] == "find":
+            rs = cell.get("runset") or frozenset()
+            while i < len(elems):
+                e2 = elems[i]
+                c2 = e2[1] if e2[0] == "c" else "x"
+                c2k = c2 if c2 in CHARS else ("é" if utf8len(c2) == 2 else ("€" if utf8len(c2) == 3 else "\U0001F600"))
+                if c2k in rs:
+                    text.append(e2)
+                    i += 1
+                else:
+                    break
+        elif k[0] not in ("bytes", "lenutf8"):
+            return None
+        pcs = []
+        for t in text:
+            pcs.append(("lit", t[1]) if t[0] == "c" else t[1])
+        out.append((cell["kind"], pcs))
+        mode = cell["next"]
+    return out
